@@ -98,8 +98,17 @@ def gen_case(rng: random.Random, tier: str):
                 "data": None, "multi_seed": rng.getrandbits(32), "big": big}
     g = gen.DefGen(rng)
     defs = g.build()
-    return {"cfg": cfg, "defs": defs, "eof_tagged": g.has_eof, "data_seed": rng.getrandbits(32),
-            "data": None, "multi_seed": rng.getrandbits(32)}
+    # what is parsed: usually the last structure; sometimes a bare scalar, an enum/flag or an array type (char[n] included)
+    root_sel = None
+    r = rng.random()
+    if r < 0.04 and [e for e in defs["enums"] if e["name"]]:
+        root_sel = {"k": "enum", "name": rng.choice([e["name"] for e in defs["enums"] if e["name"]])}
+    elif r < 0.07:
+        root_sel = {"k": "scalar", "name": rng.choice(["int16", "uint32", "int64", "int24", "uint48", "wchar", "char", "float", "ileb128", "uint128", "double"])}
+    elif r < 0.13:
+        root_sel = {"k": "array", "name": rng.choice(["uint16", "int32", "int24", "char", "char", "char", "wchar", "uint8", "uleb128"]), "n": rng.choice([1, 2, 3, 4, 8, 9])}
+    return {"cfg": cfg, "defs": defs, "eof_tagged": g.has_eof and root_sel is None, "data_seed": rng.getrandbits(32),
+            "data": None, "multi_seed": rng.getrandbits(32), "root_sel": root_sel}
 
 
 def _outcome(root, stream, obs=None):
@@ -122,14 +131,22 @@ def run_case(case, stats):
     try:
         cs = gen.make_cs(cfg, text)
         root = getattr(cs, case["defs"]["structs"][-1]["name"])
+        root_name = case["defs"]["structs"][-1]["name"]
+        sel = case.get("root_sel")
+        if sel is not None and sel["k"] == "array":
+            root, root_name = cs.resolve(sel["name"])[sel["n"]], None
+        elif sel is not None:
+            root, root_name = cs.resolve(sel["name"]), sel["name"]
     except Exception:
         raise Discard("load_fail")
 
     big = case.get("big")
     obs = _fast_obs if big else _plain_obs
-    root_name = case["defs"]["structs"][-1]["name"]
-    # T(b"..") on a structure whose only field is a char (array) of exactly that length constructs instead of parsing
-    single_bytes_field = len(root.__fields__) == 1 and issubclass(root.__fields__[0].type, bytes)
+    # T(b"..") on a structure whose only field is a char (array) of EXACTLY that length constructs instead of parsing (same
+    # value); any shorter bytes object is truncated input like any other
+    flds = getattr(root, "__fields__", None)
+    single_bytes_field = (flds is not None and len(flds) == 1 and issubclass(flds[0].type, bytes)) or (flds is None and issubclass(root, bytes))
+    shortcut_size = flds[0].type.size if flds else getattr(root, "size", None)
     # accepted input
     if big:
         # long inputs are regenerated from the seed on every execution (they are not stored in the replay file)
@@ -311,11 +328,11 @@ def run_case(case, stats):
                                 f"cut at {plan[0]['k']} of {len(A)} raised {out[1]}({out[2]})", plan=plan)
         # ---- the buffer entry points: the same truncated data handed over as bytes / bytearray / memoryview through
         # T(x), T.reads(x) and cs.read(name, x) must end like the truncated stream did (same value or the same error class)
-        if kinds == ["eof"] and not single_bytes_field and stats.c["evaluations"] % 3 == 1:
+        if kinds == ["eof"] and stats.c["evaluations"] % 3 == 1 and not (single_bytes_field and plan[0]["k"] == shortcut_size):
             cut = A[: plan[0]["k"]]
             form = stats.c["evaluations"] // 3 % 5
             arg = (cut, cut, bytearray(cut), memoryview(cut), cut)[form]
-            fn = (root, root.reads, root, root.reads, lambda x: cs.read(root_name, x))[form]
+            fn = (root, root.reads, root, root.reads, (lambda x: cs.read(root_name, x)) if root_name else root)[form]
             o2 = _outcome(fn, arg, obs)
             stats.count("probe.truncated_buffer_entry_point")
             if (o2[0], o2[1]) != (out[0], out[1]):
